@@ -9,6 +9,8 @@
 (*  sections  enter/leave events of a free-running stress run, ordered by  *)
 (*            a sequence number taken inside the section, replayed against *)
 (*            the lock model: occupancy per lock, exclusion at every step. *)
+(*  nesting   the section events of single-goroutine operations: no lock    *)
+(*            is taken recursively (RWLockBuild!NoRecursiveRLock).         *)
 (*  conc_rt   encode + decode with a codec shared by all goroutines gives  *)
 (*            what a sequential run gives (AvroWire!Dec, GoModel!Rep).     *)
 (*  conc_time timestamps parsed concurrently (shared zone cache).          *)
@@ -47,6 +49,21 @@ Sorted(evs) == \A i \in 1..(Len(evs) - 1) : evs[i].seq < evs[i + 1].seq
 FailsSections(e) == Chk(Sorted(e.events), "SPECBUG: section events not in sequence order (harness)")
                     \o (LET w == Replay(e.events, 1, Occ0) IN Chk(w = "", "critical sections overlapped: " \o w))
 
+\* one goroutine, nothing else running: the section events of codec construction, schema generation,
+\* registration and timestamp parsing.  Design rule RWLockBuild!NoRecursiveRLock (and its analogue for the other
+\* locks): a lock is never taken while this goroutine already holds it, every enter has its leave.
+RECURSIVE Nest(_, _, _)
+Nest(ev, i, held) ==
+  IF i > Len(ev) THEN (IF held = {} THEN "" ELSE "a section was entered and never left")
+  ELSE LET x == ev[i] lk == LockOf(x.sec) IN
+       IF x.ph = "enter" THEN
+            IF lk \in held THEN "lock of " \o x.sec \o " taken while the same goroutine already holds it (recursive locking: deadlocks as soon as a writer queues in between, see RWLockBuild_defect.cfg)"
+            ELSE Nest(ev, i + 1, held \cup {lk})
+       ELSE IF lk \notin held THEN "leave without enter: " \o x.sec
+            ELSE Nest(ev, i + 1, held \ {lk})
+FailsNesting(e) == Chk(e.panic = "", "panic: " \o e.panic)
+                   \o (LET w == Nest(e.events, 1, {}) IN Chk(w = "", w))
+
 FailsRT(e) ==
   LET r == Dec(e.schema, e.bytes, 1) IN
   Chk(e.out = "ok", "decode with the shared codec failed")
@@ -56,6 +73,7 @@ FailsTime(e) == Chk(e.out = "ok" /\ SameCivil(ParseRFC3339(e.s), e.t), "concurre
 
 Fails(e) == CASE e.op = "gate" -> FailsGate(e)
               [] e.op = "sections" -> FailsSections(e)
+              [] e.op = "nesting" -> FailsNesting(e)
               [] e.op = "conc_rt" -> FailsRT(e)
               [] e.op = "conc_time" -> FailsTime(e)
               [] e.op = "conc_time_batch" -> Chk(\A i \in 1..Len(e.items) : e.items[i].out = "ok" /\ SameCivil(ParseRFC3339(e.items[i].s), e.items[i].t),
